@@ -56,6 +56,9 @@ func (in *RegInstance) Apply(op string) (string, string) {
 	switch f[0] {
 	case "regnode":
 		viol = r.RegisterNode(dash(arg(1)), arg(2))
+	case "regnodeas":
+		k := map[string]el.NodeType{"F": el.NodeTypeFilter, "M": el.NodeTypeFormatter, "S": el.NodeTypeSink, "X": el.NodeTypeFormatterFilter}[arg(2)]
+		viol = r.RegisterNodeAs(dash(arg(1)), arg(3), k)
 	case "regnodesame":
 		viol = r.RegisterNodeSame(dash(arg(1)), arg(2))
 	case "regpipe":
